@@ -145,7 +145,7 @@ def make_stub(contract):
             en, ef = e if isinstance(e, tuple) else (f"ens{i}", e)
             c.spec_mode += 1
             try:
-                c.assume(to_z3_bool(ef(s)))
+                c.assume_value(ef(s))
             finally:
                 c.spec_mode -= 1
         return s.result
@@ -168,7 +168,10 @@ def _declared_fields(pyclass):
 
 def _register_inputs(c, label, ty, value):
     try:
-        c.inputs.append((label, ty, ty.unwrap(value)))
+        t = ty.unwrap(value)
+        c.inputs.append((label, ty, t))
+        if ty in (T.Int, T.Str) and not z3.is_int_value(t) and not z3.is_string_value(t):
+            c.note_term(t)
     except OutOfReach:
         pass
     if isinstance(value, ObjProxy):
@@ -191,7 +194,7 @@ def check_invariants(c, obj, phase, assume=False):
             finally:
                 c.spec_mode -= 1
             if assume:
-                c.assume(to_z3_bool(v))
+                c.assume_value(v)
             else:
                 c.oblige(f"inv:{ci.name}.{name}@{phase}", v, kind="inv")
 
@@ -263,7 +266,7 @@ def run_path(contract, c, state):
     for rn, rf in _clauses(contract.requires, "req"):
         c.spec_mode += 1
         try:
-            c.assume(to_z3_bool(rf(s)))
+            c.assume_value(rf(s))
         finally:
             c.spec_mode -= 1
     if not state.get("vacuity_checked"):
@@ -273,6 +276,7 @@ def run_path(contract, c, state):
         state["vacuity_checked"] = True
     s._old = c.heap.snapshot()
     s._seg = s._old
+    c.pre_state = s._old
     # ---- run
     call_args = list(args.values())
     exc = None
